@@ -2,7 +2,7 @@
    parametric in the tables T (today's tables: Gen/C19Tables.v; `wf T` is re-decided in C19/Inst.v).
    Only statements closed by `exact`, each followed by Print Assumptions.
    `chars out` is the LaTeX string the implementation returns; trees are arbitrary (no size bound). *)
-From S2T Require Import Lib.PyStr C19.Model C19.Proofs.
+From S2T Require Import Lib.PyStr C19.Model C19.Proofs C19.TextSpec C19.Texts.
 From Coq Require Import List Bool.
 Import ListNotations.
 
@@ -163,3 +163,16 @@ Proof.
   exact (conj (own_nary T q tag attrs text cs) (conj (own_delim T q tag attrs text cs) (own_acc T q tag attrs text cs))).
 Qed.
 Print Assumptions C19_own_operator.
+
+(* every run's mapped text exactly once, in source order — for the fragment `texts_ok_root` (C19/TextSpec.v):
+   schema-shaped trees (slot children at most once and in schema order, no text inside property/skip elements),
+   run texts without whitespace and without an opening bracket of the malformed-radical test, every radical with
+   a radicand that contains text.  `txt_of out` are exactly the output characters that stem from run texts;
+   the right-hand side is convert_greek_and_symbols of all m:t texts in document order.
+   Outside the fragment the exact equation is false by design (stripped degree whitespace, blank limits, the
+   lone-bracket radical consumes its bracket); there the check's marker oracle tests "once, in order". *)
+Theorem C19_texts_in_order_partial : forall T t out,
+  wf_txt T = true -> texts_ok_root T t = true -> convert T fixed t = Ok out ->
+  txt_of out = greek_str T (texts_root t).
+Proof. intros T t out H1 H2 H3. exact (convert_texts T H1 t out H2 H3). Qed.
+Print Assumptions C19_texts_in_order_partial.
